@@ -68,6 +68,16 @@ CHECKS = {
         note='Trusted: projection digests as object state; random/time based defaults are masked when comparing a new '
              'object with the pristine default; edits reach containers and scalar attributes within 4 levels.',
         technique='TLA+ heap model checked by TLC; replay of TLC-generated histories on real objects; trace validation'),
+    'C11': dict(
+        category='model_checking',
+        text='Prim.tla defines the primitives over digit strings (any size); TLC proves round trip / refusal / minimality of '
+             'the reference for all values 0..70000 (both signs for mpints). The real ComposerBinary/ParserBinary are run on '
+             'every 1- and 2-byte value in four byte orders (3-byte: all values in the thorough tier), boundary and '
+             'out-of-range values of widths 1-8, all flags enums, mpints up to 4096 bits of both signs and timestamps under '
+             '10-15 TZ settings; Trace_Prim compares every result with the reference.',
+        design_ref='6/C11',
+        note='Trusted: Prim.tla as the definition; native order taken as little endian; TZ switched with time.tzset().',
+        technique='TLA+ reference primitives checked by TLC; trace validation of the real primitives (exhaustive for 8/16-bit spaces)'),
 }
 
 NOT_APPLICABLE = {}
